@@ -8,15 +8,21 @@
        v1  only ForkEdgeUnrecorded v2   only RollbackSkipsInvalidParent
    Used exhaustively for small MaxOps and with -simulate for long random behaviours. *)
 EXTENDS Handles, Json
-VARIABLES hist, a1, a2
-gvars == <<vars, hist, a1, a2>>
-GInit == Init /\ hist = <<>> /\ a1 = M0 /\ a2 = M0
-GNext == /\ Next
+VARIABLES hist, a1, a2, emitted
+gvars == <<vars, hist, a1, a2, emitted>>
+GInit == Init /\ hist = <<>> /\ a1 = M0 /\ a2 = M0 /\ emitted = FALSE
+GStep == /\ Next
          /\ a1' = Apply({"ForkEdgeUnrecorded"}, a1, lastop')
          /\ a2' = Apply({"RollbackSkipsInvalidParent"}, a2, lastop')
          /\ hist' = Append(hist, [op |-> lastop', v |-> m'.valid, ref |-> r'.valid,
                                   v1 |-> a1'.valid, v2 |-> a2'.valid, fired |-> fired',
                                   stale |-> stale'])
+         /\ UNCHANGED emitted
+(* The path is printed by a final step of its own (not by an invariant): in -simulate mode TLC
+   evaluates invariants on every candidate successor, an action only once per chosen state. *)
+GEmit == /\ nops = MaxOps /\ ~emitted
+         /\ PrintT("BEH " \o ToJson(hist))
+         /\ emitted' = TRUE /\ UNCHANGED <<vars, hist, a1, a2>>
+GNext == GStep \/ GEmit
 GSpec == GInit /\ [][GNext]_gvars
-Emit == (nops = MaxOps) => PrintT("BEH " \o ToJson(hist))
 =============================================================================
